@@ -295,7 +295,7 @@ theorem authLiteS_true {pw rc : Bytes} {s s' : St σ}
       ∧ liteAuthenticate C idm pw rc rsp1 rsp2 = .ok (true, sess)
       ∧ liteSAuthenticate C idm pw rc rsp1 rsp2 rsp3 rsp4 rsp5 = .ok true
       ∧ s'.rd = ⟨sess, true⟩ := by
-  unfold authLiteS at h
+  unfold authLiteS extAuthS at h
   obtain ⟨ok, s1, h1, k1⟩ := bind_ok.mp h
   clear h
   cases ok with
